@@ -21,6 +21,7 @@ import (
 	"errors"
 	"fmt"
 	"reflect"
+	"sort"
 
 	"github.com/cloudwego/eino/components/document"
 	"github.com/cloudwego/eino/components/embedding"
@@ -413,7 +414,10 @@ func (c *Chain[I, O]) AppendBranch(b *ChainBranch) *Chain[I, O] { // nolint: byt
 		return c
 	}
 
+	// in a fixed order: the next Append adds its edges in this order, and a pass-through node is typed from the first
+	// edge it is shown — the outcome of a construction sequence must not depend on map iteration
 	c.preNodeKeys = gmap.Values(key2NodeKey)
+	sort.Strings(c.preNodeKeys)
 
 	return c
 }
